@@ -499,6 +499,10 @@ func (m *MycatPartitionPaddingModShard) checkParam() error {
 		return fmt.Errorf("invalid padding mod, padLength is less than modBegin - modEnd: %d, %d, %d", m.padLength, m.modBegin, m.modEnd)
 	}
 
+	if m.padLength < m.modEnd {
+		return fmt.Errorf("invalid padding mod, padLength is less than modEnd: %d, %d", m.padLength, m.modEnd)
+	}
+
 	return nil
 }
 
